@@ -18,7 +18,7 @@ SCENARIO_DRAW = ["ooo_batch", "carriers", "bad_batch", "stale_handle", "torn_upd
                       "remove_first", "ooo_then_remove", "nested_not", "reset_then_time", "nan_fields", "epoch", "sparse_write", "sparse_write", "future_untimed", "range_ends", "noop_compose", "substring_names", "same_size", "one_us_late", "mixed_quoting", "far_sorted", "getter_memo", "handle_sorted", "odd_strings", "shared_maps", "hash_twins", "same_count", "redate", "fold_twins", "big_ties", "handle_unset", "same_row_twice", "or_not", "noop_match", "minute_marks", "none_name", "merge_rename", "tiny_float_change", "big_ints", "redate_remove", "underscore_keys", "buffered_handle"]
 # scenarios that are only ever FORCED (dbtie runs every scenario once per configuration; a check names the ones it wants in both passes under
 # 'scenario_also'): adding one here leaves every random history - and what it is known to catch - what it was
-SCENARIO_FORCED_ONLY = ["ne_writes", "line_separators", "dotted_keys", "front_rows_removed", "raising_test_update"]
+SCENARIO_FORCED_ONLY = ["ne_writes", "line_separators", "dotted_keys", "front_rows_removed", "raising_test_update", "torn_gap", "same_row_text"]
 SCENARIOS = list(dict.fromkeys(SCENARIO_DRAW)) + SCENARIO_FORCED_ONLY
 
 
@@ -982,6 +982,37 @@ class Gen:
             ops += [("update", q, {"fields": ("static", {"a": 9})}, None)] + obs + [("all", False)]
             ops += [("update", ("not", bad), {"tags": ("static", {"hit": "1"})}, None)] + obs + [("all", False)]
             ops += [("remove", r.choice([("not", bad), bad]), None)] + obs + [("all", False), ("get_field_values", "a", None)]
+        elif k == "torn_gap":
+            # a failing update decided by SCANNING (a negated field test) whose selected rows are not adjacent: a changed point, then a point the query does
+            # NOT select, then the point on which the callable raises; also through a handle, with a row of ANOTHER measurement stored first (positions
+            # in storage are not positions among the handle's rows) - the contents afterwards are what they were
+            pts = self.points_batch(5, in_order=True)
+            vals = [1, -5, 1, -7, 2]                                   # fields callable 3 raises when a == 2; the query selects a > 0
+            for i, p in enumerate(pts):
+                p["fields"]["a"], p["meas"] = vals[i], "m1"
+                p["tags"]["n"] = "abcdefgh"[i]
+            other = self.point(pts[0]["time"] - SEC)
+            other["meas"], other["fields"]["a"] = "m2", 1
+            lead = r.random() < 2          # (always: the leading row of another measurement is the point of the handle variants)
+            ops += [("insert", ([other] if lead else []) + pts, None, "multiple")] + obs
+            q = r.choice([("not", ("S", "fields", [("k", "a")], ("cmp", "<=", ("n", 0)))), ("and", ("not", ("S", "fields", [("k", "a")], ("cmp", "<=", ("n", 0)))), ("S", "tags", [("k", "n")], ("exists",)))])
+            torn = r.choice([{"fields": ("call", 3)}, {"fields": ("call", 3), "tags": ("static", {"seen": "1"})}])
+            ops += [r.choice([("update", q, torn, "m1"), ("handle", "m1", ("update", q, torn)), ("handle", "m1", ("update_all", torn)), ("update", q, torn, None)])] + obs + [("all", False)]
+            ops += [("count", ("S", "fields", [("k", "a")], ("cmp", "==", ("n", 1))), None), ("get_field_values", "a", None), ("handle", "m2", ("all", False))]
+            ops += [("handle", "m1", ("update", q, torn))] + obs + [("all", False), ("handle", "m2", ("all", False))]
+        elif k == "same_row_text":
+            # a point is updated, then a point IDENTICAL to what it was before the update (instant included) is inserted; removals / counts decided by
+            # scanning must see the new row as what its text says, not as what an equal text once became
+            pts = self.points_batch(r.choice([3, 4]), in_order=True)
+            for i, p in enumerate(pts):
+                p["fields"]["x"] = i + 1
+                p["tags"]["n"] = "abcdefgh"[i]
+            ops += [("insert", pts, None, "multiple")] + obs
+            first = ("S", "tags", [("k", "n")], ("cmp", "==", ("s", "a")))
+            ops += [("update", first, {"fields": ("static", {"x": 50})}, None)] + obs
+            ops += [("insert", [dict(pts[0], tags=dict(pts[0]["tags"]), fields=dict(pts[0]["fields"]))], None)] + obs
+            scan = ("not", ("S", "fields", [("k", "x")], ("cmp", "!=", ("n", 1))))          # a negated field test: decided by scanning
+            ops += [("count", scan, None), ("search", scan, None, False), ("all", False), ("remove", scan, None)] + obs + [("all", False), ("get_field_values", "x", None)]
         elif k == "underscore_keys":
             # tag / field keys with underscores in them, written with compact key prefixes; removals and updates decided by SCANNING (a negated field
             # test is not answered by the index; so is everything when automatic indexing is off)
